@@ -64,6 +64,7 @@ func runC03(c *Ctx) {
 
 	// ---------------------------------------------------------------- R1
 	c.rule("R1", "malformed queries are rejected before the entry runs and get no reply", 5)
+	checkServerUnpackChecksCounts(c)
 	if execCall == nil || newCtx == nil {
 		c.anchorMissing("Entry.Exec / NewContext in Handle")
 	} else {
